@@ -181,7 +181,7 @@ func run3(c *hlib.Ctx) {
 
 	// --- distances (DistTransform kinds)
 	for i := 0; i < n; i++ {
-		x := g.transform(true, 0)
+		x := g.distTransform()
 		x.stat(c, "dxf3")
 		t := x.build3().(model3d.DistTransform)
 		p := g.p3()
@@ -253,7 +253,7 @@ func run3(c *hlib.Ctx) {
 		}))
 	}
 	for i := 0; i < n; i++ {
-		x := g.transform(true, 0)
+		x := g.distTransform()
 		t := x.build3().(model3d.DistTransform)
 		var s interface {
 			model3d.SDF
@@ -292,7 +292,7 @@ func run3(c *hlib.Ctx) {
 
 	// --- transformedCollider, faithful kinds with the recording stub
 	for i := 0; i < n; i++ {
-		x := g.transform(true, 0)
+		x := g.distTransform()
 		t := x.build3().(model3d.DistTransform)
 		r := model3d.Ray{Origin: g.p3(), Direction: g.p3()}
 		st := &stub3{}
@@ -342,7 +342,7 @@ func run3(c *hlib.Ctx) {
 		g.emitColl3(x, unit, "unit-ball", axis)
 	}
 	for i := 0; i < 2*n; i++ {
-		x := g.transform(true, 0)
+		x := g.distTransform()
 		col, cname := g.collider3()
 		g.emitColl3(x, col, cname, g.ray3(col))
 	}
